@@ -130,6 +130,9 @@ pub struct Outcome {
     pub states: Vec<u64>,
     /// the case made more explicit by the run that failed (e.g. with the failing schedule filled in)
     pub refined: Option<serde_json::Value>,
+    /// further violations of other classes found by the same case, each with its explicit case
+    #[serde(default)]
+    pub more: Vec<(Violation, serde_json::Value)>,
 }
 
 impl Outcome {
